@@ -72,6 +72,14 @@ CancelCases ==
         [op |-> "pair.sum", rounds |-> 2, na |-> 0, np |-> 2, mask |-> <<"none", "none">>, entries |-> << Pr(three, five), Pr(three, m5) >>, src |-> "gen", cls |-> "cancelling"],
         [op |-> "pair.sum", rounds |-> 1, na |-> 3, np |-> 1, mask |-> <<"none", "none", "none", "none">>,
          entries |-> << A(three, five), A(m3, five), A(FromNat(7), FromNat(2)), Pr(Sub(RMod, FromNat(7)), FromNat(2)) >>, src |-> "gen", cls |-> "cancelling"] >>
+\* long lists: n records of one pair (each record with its own operand objects), identity operands at the listed 0-based positions.
+\* "Any length": nothing in the interface makes 64 (or any other count) special; the expected product is e(P, Q)^(n - #identities).
+LongCases ==
+  LET ns == IF Tier = "quick" THEN {65, 66} ELSE {63, 64, 65, 66, 129, 130}
+      ids == { <<>>, <<0>>, <<1>>, <<64>>, <<65>>, <<0, 64>>, <<1, 65>>, <<128>> }
+  IN SetToSeq(UNION { { [op |-> "pair.long", variant |-> kind, n |-> n, idpos |-> ip, idside |-> sd, p |-> Aff1Raw(M1(FromNat(3))), q |-> Aff2Raw(M2(FromNat(5))),
+                          cls |-> "long-list", src |-> "gen"] :
+                        kind \in {"affine", "prepared"}, ip \in { x \in ids : \A k \in 1..Len(x) : x[k] < n }, sd \in {"P", "Q"} } : n \in ns })
 SumCases ==
   SetToSeq(UNION { UNION { { [op |-> "pair.sum", rounds |-> 2, na |-> na, np |-> np, mask |-> m,
                               entries |-> [i \in 1..(na + np) |-> Entry(IF i <= na THEN "affine" ELSE "prepared", i, m[i])], src |-> "gen"]
@@ -79,7 +87,7 @@ SumCases ==
   \* interleaved construction order (prepared first) and a repeated pair
   \o << [op |-> "pair.sum", rounds |-> 2, na |-> 1, np |-> 1, mask |-> <<"none", "none">>,
          entries |-> << Entry("prepared", 1, "none"), Entry("affine", 1, "none") >>, src |-> "gen"] >>
-  \o SharedCases \o CancelCases
+  \o SharedCases \o CancelCases \o LongCases
 
 \* ---- target group ----------------------------------------------------------------------------------------
 GTBases == IF Tier = "quick" THEN { GTGen, RefPairing(M1(FromNat(3)), M2(FromNat(5))) } ELSE { GTGen, F12Exp(GTGen, Sub(RMod, One)), RefPairing(M1(FromNat(3)), M2(FromNat(5))), F12!EOne }
@@ -111,7 +119,7 @@ GtCases ==
   \o SetToSeq({ [op |-> "gt.op", which |-> w, a |-> Raw12(a), b |-> Raw12(b), alias |-> al, src |-> "gen"] :
                 w \in {"add", "negate", "double", "equal", "marshal"}, a \in GTBases \cup {F12!EOne}, b \in GTBases \cup {F12!EOne}, al \in {0, 1, 2} })
   \o SetToSeq({ [op |-> "gt.op", which |-> "add", a |-> Raw12(a), b |-> Raw12(a), alias |-> 3, src |-> "gen"] : a \in GTBases })
-  \o SetToSeq({ [op |-> "gt.random", variant |-> v, a |-> Raw12(a), stream |-> s, alias |-> al, src |-> "gen"] : v \in {"c", "cpp"}, a \in GTBases, s \in PowXStreams, al \in {0, 1} })
+  \o SetToSeq({ [op |-> "gt.random", variant |-> v, a |-> Raw12(a), stream |-> s, alias |-> al, src |-> "gen"] : v \in {"c", "cpp"}, a \in GTBases \cup { F12!EOne }, s \in PowXStreams, al \in {0, 1} })
   \* the final exponentiation as a function on all of Fq12* (its input is a Miller-loop value, not a GT element)
   \o SetToSeq({ [op |-> "gt.finalexp", a |-> Raw12(a), alias |-> al, src |-> "gen"] :
                 a \in { GTGen, << <<<<Rnd(61), Rnd(62)>>, <<Rnd(63), Rnd(64)>>, <<Rnd(65), Rnd(66)>>>>, <<<<Rnd(67), Rnd(68)>>, <<Rnd(69), Rnd(70)>>, <<Rnd(71), Rnd(72)>>>> >> }, al \in {0, 1} })
